@@ -327,8 +327,49 @@ fn fn_endings(ctx: &mut Ctx) {
     }
 }
 
+/// assignments whose target is not a variable, an element or a property: rejected, or at least balanced
+fn odd_assignment_targets(ctx: &mut Ctx) {
+    let targets = [
+        "stdout", "stderr", "stdin", "null", "[1, 2]", "f()", "$1", "map {}", "fn() { 1 }", "if true { 1 } else { 2 }", "\"s\"", "1", "true", "len", "argv", "NP", "1.5", "'c'", "b'x'", "[1][0]", "map {1: 2}[1]",
+        "f", "f(1)[0]", "-x", "!x", "(x)", "x + 1", "match x { _ => x }",
+    ];
+    for (k, t) in targets.iter().enumerate() {
+        if !ctx.mine(k as u64) {
+            continue;
+        }
+        for ctxt in 0..3 {
+            let stmt = match ctxt {
+                0 => format!("{} = 5;", t),
+                1 => format!("let y = ({} = 5);", t),
+                _ => format!("let i = 0; while i < 3 {{ {} = i; i = i + 1; }}", t),
+            };
+            let prog = vec![S::Raw("let x = 1;".into()), S::Raw("fn f(n) { [n] }".into()), S::Raw(stmt.clone()), S::Raw("x;".into())];
+            ctx.class("odd-assignment-target");
+            for v in check_statements(ctx, "odd-targets", &prog) {
+                // being rejected by the parser is one of the two good outcomes here
+                if v.sig.starts_with("parse-error-on-generated") {
+                    continue;
+                }
+                ctx.report(v);
+            }
+            // in a long loop a leak of one slot per iteration shows as a stack overflow
+            let looped = format!("let x = 1;\nfn f(n) {{ [n] }}\nlet k = 0;\nwhile k < 6000 {{ {} = 5; k = k + 1; }}\nk", t);
+            if ctxt == 0 {
+                let mut sess = Session::new();
+                if let Step::Ran(r) = sess.step(&looped) {
+                    ctx.case(hash_str(&looped), true);
+                    if r.err.as_ref().map(|e| e.0.contains("Stack overflow")).unwrap_or(false) {
+                        ctx.report(Violation::new("odd-targets", "stack-overflow-in-loop:odd-assignment-target", format!("6000 executions of `{} = 5;` end in a stack overflow: the statement leaves an operand behind\n{}", t, looped), json!({"prog": [S::Raw(looped.clone())], "src": looped})));
+                    }
+                }
+            }
+        }
+    }
+}
+
 pub fn run(ctx: &mut Ctx) {
     fn_endings(ctx);
+    odd_assignment_targets(ctx);
     let n = ctx.nshards as u32;
     // mode A: no jumps in operand positions (every imbalance is novel)
     drive(ctx, "statements", ctx.tier.pick(40_000, 1_000_000) / n, 16, 400, |ctx, bytes| {
